@@ -283,8 +283,33 @@ func runC19(c *Ctx) {
 				nApp++
 				els := varargElems(cv.Call.Args[1])
 				okEl := len(els) > 0
+				var builtHere func(v ssa.Value, depth int) bool
+				builtHere = func(v ssa.Value, depth int) bool {
+					v = core.Unspill(v)
+					if _, isLit := v.(*ssa.Alloc); isLit {
+						return true
+					}
+					// a constructor of the package: every return hands out an object it allocated itself
+					if cc, isCall := v.(*ssa.Call); isCall && depth < 2 {
+						g := cc.Call.StaticCallee()
+						if g == nil || core.FuncPkgPath(g) != backendPkg || len(g.Blocks) == 0 {
+							return false
+						}
+						nRet := 0
+						for _, b := range g.Blocks {
+							if ret, isRet := b.Instrs[len(b.Instrs)-1].(*ssa.Return); isRet {
+								nRet++
+								if len(ret.Results) != 1 || !builtHere(ret.Results[0], depth+1) {
+									return false
+								}
+							}
+						}
+						return nRet > 0
+					}
+					return false
+				}
 				for _, el := range els {
-					if _, isLit := core.Unspill(el).(*ssa.Alloc); !isLit {
+					if !builtHere(el, 0) {
 						okEl = false
 					}
 				}
